@@ -1,3 +1,809 @@
-(* TreeWF2 — reserved for the proof agent owning this topic. *)
+(* TreeWF2 — Tree.ins / upd / rem on well-formed nodes: the result is well formed,
+   its routes are the expected ones, and errors mean what they say.
+   Conflicts are described at byte level here ([clash] / [apart]); TreeMap.v
+   relates them to the token-level rule of the specification. *)
 From FoxBase Require Import Bytes.
-From FoxRoute Require Import Node Lookup Spec Tree.
+From FoxRoute Require Import Node Lookup Spec Tree WFDef TreeWF.
+From Coq Require Import Sorting.Sorted Permutation.
+Open Scope char_scope.
+
+(* p and q are different and diverge outside any wildcard (or one is a proper prefix of the other) *)
+Definition apart (p q : bytes) : Prop :=
+  (exists k, k <> [] /\ q = p ++ k /\ closed p = true) \/
+  (exists k, k <> [] /\ p = q ++ k /\ closed q = true) \/
+  (exists u a s b s', p = u ++ a :: s /\ q = u ++ b :: s' /\ a <> b /\ closed u = true).
+(* p and q diverge inside the name of a wildcard *)
+Definition clash (p q : bytes) : Prop :=
+  exists u a s b s', p = u ++ a :: s /\ q = u ++ b :: s' /\ a <> b /\ snd (vrun u) = VName.
+
+Definition WFch (pre : bytes) (ch : list node) : Prop := sorted_fb ch /\ Forall (WF_node pre) ch.
+Definition pats (ch : list node) : list bytes := map rpat (flat_map rlist ch).
+Definition grow (ch ch' : list node) : Prop :=
+  (List.length ch' = List.length ch /\ map fb ch' = map fb ch) \/ List.length ch' = S (List.length ch).
+
+Lemma WF_node_children pre n : WF_node pre n -> WFch (pre ++ nkey n) (nchildren n).
+Proof. intros H. inversion H; subst. split; assumption. Qed.
+
+Lemma WF_node_closed pre n : WF_node pre n -> closed (pre ++ nkey n) = true.
+Proof. intros H. inversion H; subst. assumption. Qed.
+
+Lemma WF_node_route pre n rt : WF_node pre n -> nroute n = Some rt ->
+  rpat rt = pre ++ nkey n /\ hostpart (pre ++ nkey n) = false.
+Proof. intros H E. inversion H; subst. cbn [nkey nroute] in *. auto. Qed.
+
+Lemma WF_node_host pre n : WF_node pre n -> hostpart pre = true -> starts_with "/" (nkey n) = false ->
+  hostpart (pre ++ nkey n) = true.
+Proof. intros H. inversion H; subst. cbn [nkey]. assumption. Qed.
+
+Lemma rlist_own n rt : nroute n = Some rt -> In rt (rlist n).
+Proof. destruct n as [k r ch]. simpl. intros ->. left. reflexivity. Qed.
+
+Lemma pats_app a b : pats (a ++ b) = pats a ++ pats b.
+Proof. unfold pats. rewrite flat_map_app, map_app. reflexivity. Qed.
+
+Lemma pats_mid l1 c l2 : Permutation (pats (l1 ++ c :: l2)) (map rpat (rlist c) ++ pats (l1 ++ l2)).
+Proof. unfold pats. rewrite <- map_app. apply Permutation_map. apply rlist_children_mid. Qed.
+
+Lemma nat_of_ascii_inj a b : nat_of_ascii a = nat_of_ascii b -> a = b.
+Proof. intros H. rewrite <- (ascii_nat_embedding a), <- (ascii_nat_embedding b). f_equal. exact H. Qed.
+
+(* routes below the children that do not start with the next byte diverge right here *)
+Lemma others_apart pre ch c0 r0 q : Forall (WF_node pre) ch -> closed pre = true ->
+  Forall (fun x => starts_with c0 (nkey x) = false) ch -> In q (pats ch) -> apart (pre ++ c0 :: r0) q.
+Proof.
+  intros Hwf Hc Hno Hin. unfold pats in Hin. apply in_map_iff in Hin. destruct Hin as [rt [<- Hin]].
+  destruct (WF_children_pat ch pre rt Hwf Hin) as [c [k' [Hc1 [_ [Hne [Hp _]]]]]].
+  rewrite Forall_forall in Hno. specialize (Hno c Hc1).
+  destruct (nkey c) as [|b s'] eqn:Ek; [congruence|]. simpl in Hno. apply Ascii.eqb_neq in Hno.
+  right. right. exists pre, c0, r0, b, (s' ++ k'). rewrite Hp. simpl. repeat split; auto.
+Qed.
+
+Lemma WFch_replace pre l1 c l2 c' :
+  WFch pre (l1 ++ c :: l2) -> WF_node pre c' -> fb c' = fb c -> WFch pre (l1 ++ c' :: l2).
+Proof.
+  intros [Hs Hf] Hw He. split; [eapply sorted_fb_replace; eauto|].
+  apply Forall_app in Hf. destruct Hf as [Ha Hb]. inversion Hb; subst.
+  apply Forall_app. split; [exact Ha|]. constructor; assumption.
+Qed.
+
+Lemma rlist_replace_perm l1 c l2 c' x : Permutation (rlist c') (x :: rlist c) ->
+  Permutation (flat_map rlist (l1 ++ c' :: l2)) (x :: flat_map rlist (l1 ++ c :: l2)).
+Proof.
+  intros H. rewrite !flat_map_app. simpl. rewrite H. simpl.
+  symmetry. apply Permutation_middle.
+Qed.
+
+Lemma grow_replace l1 c l2 c' : fb c' = fb c -> grow (l1 ++ c :: l2) (l1 ++ c' :: l2).
+Proof. intros H. left. rewrite !app_length, !map_app. simpl. rewrite H. auto. Qed.
+
+Lemma WF_set_route pre c r : WF_node pre c -> rpat r = pre ++ nkey c -> hostpart (pre ++ nkey c) = false ->
+  WF_node pre (Node (nkey c) (Some r) (nchildren c)).
+Proof.
+  intros H Hp Hh. inversion H; subst. cbn [nkey nchildren] in *. constructor; auto.
+  - intros rt [= <-]. auto.
+  - discriminate.
+Qed.
+
+Lemma WF_regrow pre c c' : WF_node pre c -> nkey c' = nkey c -> nroute c' = nroute c ->
+  WFch (pre ++ nkey c) (nchildren c') -> grow (nchildren c) (nchildren c') -> WF_node pre c'.
+Proof.
+  intros H Hk Hr [Hs Hf] Hg. destruct c' as [k' r' ch']. inversion H as [? k r ch H1 H2 H3 H4 H5 H6 H7]; subst.
+  cbn [nkey nroute nchildren] in *. subst. constructor; auto.
+  intros E. destruct (H6 E) as [Hl|[Hh [g [-> Hg']]]].
+  - left. destruct Hg as [[Hg _]|Hg]; lia.
+  - destruct Hg as [[Hg1 Hg2]|Hg]; [|left; simpl in Hg; lia]. right. split; [exact Hh|].
+    destruct ch' as [|g' [|? ?]]; try discriminate. exists g'. split; [reflexivity|].
+    simpl in Hg2. injection Hg2 as Hg2. inversion Hf; subst.
+    apply fb_eq_starts; [eapply WF_node_key_ne; eauto|]. rewrite Hg2. apply fb_starts. exact Hg'.
+Qed.
+
+(* the lower half of a node whose key is cut in two *)
+Lemma WF_split_key pre k1 k2 c : WF_node pre c -> nkey c = k1 ++ k2 -> k1 <> [] -> k2 <> [] ->
+  closed (pre ++ k1) = true -> WF_node (pre ++ k1) (Node k2 (nroute c) (nchildren c)).
+Proof.
+  intros H Hk Hk1 Hk2 Hc. inversion H as [? k r ch H1 H2 H3 H4 H5 H6 H7]; subst.
+  cbn [nkey nroute nchildren] in *. subst.
+  constructor; rewrite <- ?app_assoc; auto.
+  intros Hh Hs. apply H3.
+  - eapply hostpart_app; eauto.
+  - destruct k1 as [|x k1]; [congruence|]. simpl.
+    destruct (Ascii.eqb_spec x "/") as [->|]; [|reflexivity]. exfalso.
+    apply hostpart_slash in Hh; [|apply closed_nonbad; exact Hc]. apply Hh. apply in_or_app. right. left. reflexivity.
+Qed.
+
+Lemma length_app_neq {A} (k s : list A) : s <> [] -> Nat.eqb (List.length k) (List.length (k ++ s)) = false.
+Proof. intros H. apply Nat.eqb_neq. rewrite app_length. destruct s; [congruence|simpl; lia]. Qed.
+Lemma length_app_neq_mid {A} (u : list A) a s : Nat.eqb (List.length u) (List.length (u ++ a :: s)) = false.
+Proof. apply length_app_neq. discriminate. Qed.
+
+Lemma sort_two n1 n2 : nkey n1 <> [] -> nkey n2 <> [] -> fb n1 <> fb n2 ->
+  sorted_fb (sort_nodes [n1; n2]) /\ Permutation (sort_nodes [n1; n2]) [n1; n2].
+Proof.
+  intros H1 H2 H3. split; [|apply sort_nodes_perm]. apply sort_nodes_sorted.
+  - repeat constructor; assumption.
+  - simpl. constructor; [simpl; intuition|]. constructor; [simpl; tauto|constructor].
+Qed.
+
+Section Ins.
+Variable ri : rinfo.
+Hypothesis Hvalid : valid_rinfo ri.
+Let p := rpat (ri_route ri).
+
+Lemma p_closed : closed p = true.
+Proof. destruct Hvalid as [H _]. unfold valid_patternb in H. apply andb_true_iff in H. tauto. Qed.
+Lemma p_path : hostpart p = false.
+Proof. destruct Hvalid as [H _]. unfold valid_patternb in H. apply andb_true_iff in H. apply negb_true_iff. tauto. Qed.
+
+Lemma ins_spec : forall fuel n pre cm depth rest,
+  WFch pre (nchildren n) -> closed pre = true -> p = pre ++ rest -> rest <> [] -> cm = List.length pre ->
+  List.length rest < fuel ->
+  match ins fuel ri n cm depth rest with
+  | InsOk n' d =>
+      nkey n' = nkey n /\ nroute n' = nroute n /\ WFch pre (nchildren n') /\
+      Permutation (flat_map rlist (nchildren n')) (ri_route ri :: flat_map rlist (nchildren n)) /\
+      (forall q, In q (pats (nchildren n)) -> apart p q) /\
+      grow (nchildren n) (nchildren n')
+  | InsErr (ErrExist e) => e = p /\ In p (pats (nchildren n))
+  | InsErr (ErrConflict ps) =>
+      ps <> [] /\ exists others, Permutation (pats (nchildren n)) (ps ++ others) /\
+                                 Forall (clash p) ps /\ Forall (apart p) others
+  end.
+Proof.
+  induction fuel as [|f IH]; intros n pre cm depth rest Hch Hcl Hp Hne Hcm Hfuel; [lia|].
+  destruct rest as [|c0 r0]; [congruence|]. cbn [ins].
+  destruct Hch as [Hsorted Hwf].
+  destruct (find_child n c0) as [i|] eqn:Ef.
+  2:{ (* no edge: a new leaf below n *)
+    unfold find_child in Ef. apply find_child_from_none in Ef.
+    pose proof (new_leaf_spec ri pre c0 r0 Hvalid Hp Hcl) as Hnl. rewrite <- Hcm in Hnl.
+    destruct (new_leaf ri cm (c0 :: r0)) as [child add]. cbn [fst] in Hnl. destruct Hnl as [Hn1 [Hn2 Hn3]].
+    unfold new_node. cbn [nkey nroute nchildren].
+    split; [reflexivity|]. split; [reflexivity|]. split; [split|split; [|split]].
+    - eapply sorted_add_child; eauto. eapply WF_children_key_ne; eauto.
+    - apply (perm_Forall _ (nchildren n ++ [child])); [symmetry; apply sort_nodes_perm|].
+      apply Forall_app. split; [exact Hwf|]. constructor; [exact Hn1|constructor].
+    - rewrite (flat_map_rlist_perm _ _ (sort_nodes_perm _)). rewrite flat_map_app. simpl. rewrite Hn2. simpl.
+      symmetry. apply Permutation_cons_append.
+    - intros q Hq. rewrite Hp. eapply others_apart; eauto.
+    - right. rewrite (Permutation_length (sort_nodes_perm _)), app_length. simpl. lia. }
+  destruct (find_child_some n c0 i Ef) as [l1 [c [l2 [Ech [Ei [Hst [Hnth Hl1]]]]]]].
+  rewrite Hnth. rewrite Ech in Hsorted, Hwf.
+  assert (WF_node pre c) as Hwc.
+  { apply Forall_app in Hwf. destruct Hwf as [_ Hwf]. inversion Hwf; assumption. }
+  assert (Forall (fun x => starts_with c0 (nkey x) = false) (l1 ++ l2)) as Hothers
+    by (eapply sorted_mid_unique; eauto).
+  assert (Forall (WF_node pre) (l1 ++ l2)) as Hwf12.
+  { apply Forall_app in Hwf. destruct Hwf as [Ha Hb]. inversion Hb; subst. apply Forall_app; auto. }
+  assert (forall q, In q (pats (l1 ++ l2)) -> apart p q) as Hap12.
+  { intros q Hq. rewrite Hp. eapply others_apart; eauto. }
+  (* the common wrap-up when child c is replaced by c' *)
+  assert (forall c', WF_node pre c' -> starts_with c0 (nkey c') = true ->
+            Permutation (rlist c') (ri_route ri :: rlist c) ->
+            (forall q, In q (map rpat (rlist c)) -> apart p q) ->
+            nkey (Node (nkey n) (nroute n) (replace_nth (nchildren n) i c')) = nkey n /\
+            nroute (Node (nkey n) (nroute n) (replace_nth (nchildren n) i c')) = nroute n /\
+            WFch pre (nchildren (Node (nkey n) (nroute n) (replace_nth (nchildren n) i c'))) /\
+            Permutation (flat_map rlist (nchildren (Node (nkey n) (nroute n) (replace_nth (nchildren n) i c'))))
+                        (ri_route ri :: flat_map rlist (nchildren n)) /\
+            (forall q, In q (pats (nchildren n)) -> apart p q) /\
+            grow (nchildren n) (nchildren (Node (nkey n) (nroute n) (replace_nth (nchildren n) i c')))) as Hwrap.
+  { intros c' Hw' Hst' Hperm Hap. cbn [nkey nroute nchildren]. rewrite Ech, Ei, replace_nth_app.
+    assert (fb c' = fb c) as Hfb by (rewrite (fb_starts c0 c'), (fb_starts c0 c); auto).
+    split; [reflexivity|]. split; [reflexivity|]. split; [|split; [|split]].
+    - apply (WFch_replace pre l1 c l2 c'); auto. split; assumption.
+    - apply rlist_replace_perm. exact Hperm.
+    - intros q Hq. eapply Permutation_in in Hq; [|apply pats_mid]. apply in_app_or in Hq.
+      destruct Hq as [Hq|Hq]; auto.
+    - apply grow_replace. exact Hfb. }
+  cbv zeta.
+  destruct (cp_cases (c0 :: r0) (nkey c)) as [Hex Hcp|s Hs Hex Hcp Hsk|s Hs Hex Hcp Hsk|u a s b s' Hab Hex1 Hex2 Hcp Hsk1 Hsk2];
+    rewrite Hcp.
+  - (* exactMatch *)
+    assert (Nat.eqb (List.length (nkey c)) (List.length (c0 :: r0)) = true) as E2 by (rewrite Hex; apply Nat.eqb_refl).
+    rewrite Nat.eqb_refl, E2.
+    assert (p = pre ++ nkey c) as Hp' by (rewrite Hp, Hex; reflexivity).
+    destruct (nroute c) as [r|] eqn:Er.
+    + destruct (WF_node_route _ _ _ Hwc Er) as [Ha Hb]. split; [congruence|].
+      unfold pats. apply in_map_iff. exists r. split; [congruence|].
+      rewrite Ech. apply in_flat_map. exists c. split; [apply in_or_app; right; left; reflexivity|].
+      apply rlist_own. exact Er.
+    + apply Hwrap.
+      * apply WF_set_route; auto. rewrite <- Hp'. exact p_path.
+      * exact Hst.
+      * destruct c as [k rr ch]. cbn [nroute nkey nchildren] in *. subst rr. reflexivity.
+      * intros q Hq. apply in_map_iff in Hq. destruct Hq as [rt [<- Hq]].
+        destruct c as [k rr ch]. cbn [nroute nkey nchildren] in *. subst rr. simpl in Hq.
+        destruct (WF_node_children _ _ Hwc) as [_ Hwcc]. cbn [nkey nchildren] in Hwcc.
+        destruct (WF_children_pat ch (pre ++ k) rt Hwcc Hq) as [c2 [k' [_ [_ [Hne2 [Hpat _]]]]]].
+        left. exists (nkey c2 ++ k'). split; [|split; [|exact p_closed]].
+        -- intros E. apply app_eq_nil in E. tauto.
+        -- rewrite Hpat, Hp'. reflexivity.
+  - (* full key matched, more to go: descend *)
+    assert (Nat.eqb (List.length (nkey c)) (List.length (c0 :: r0)) = false) as E2 by (rewrite Hex; apply length_app_neq; exact Hs).
+    rewrite Nat.eqb_refl, E2, Hsk.
+    assert (p = (pre ++ nkey c) ++ s) as Hp' by (rewrite Hp, Hex, app_assoc; reflexivity).
+    specialize (IH c (pre ++ nkey c) (cm + List.length (nkey c)) (S depth) s
+                  (WF_node_children _ _ Hwc) (WF_node_closed _ _ Hwc) Hp' Hs).
+    assert (cm + List.length (nkey c) = List.length (pre ++ nkey c)) as Hcm' by (rewrite app_length; lia).
+    assert (List.length s < f) as Hf'.
+    { rewrite Hex in Hfuel. rewrite app_length in Hfuel. pose proof (WF_node_key_ne _ _ Hwc) as Hk.
+      destruct (nkey c); [congruence|]. simpl in Hfuel. lia. }
+    specialize (IH Hcm' Hf').
+    destruct (ins f ri c (cm + List.length (nkey c)) (S depth) s) as [c' d|[e|ps]].
+    + destruct IH as [Hk [Hr [Hch' [Hperm [Hap Hg]]]]].
+      apply (Hwrap c').
+      * eapply WF_regrow; eauto.
+      * rewrite Hk. exact Hst.
+      * destruct c' as [k' r' ch'], c as [k rr ch]. cbn [nkey nroute nchildren rlist] in *. subst.
+        rewrite Hperm. destruct rr; simpl; [apply perm_swap|reflexivity].
+      * intros q Hq. apply in_map_iff in Hq. destruct Hq as [rt [<- Hq]].
+        destruct c as [k rr ch]. cbn [nkey nroute nchildren rlist] in *. apply in_app_or in Hq.
+        destruct Hq as [Hq|Hq].
+        -- destruct rr as [r|]; [|destruct Hq]. destruct Hq as [->|[]].
+           destruct (WF_node_route _ _ _ Hwc eq_refl) as [Ha Hb]. cbn [nkey] in Ha.
+           right. left. exists s. rewrite Ha. split; [exact Hs|]. split; [exact Hp'|]. apply (WF_node_closed _ _ Hwc).
+        -- apply Hap. unfold pats. apply in_map. exact Hq.
+    + destruct IH as [-> Hin]. split; [reflexivity|]. rewrite Ech.
+      eapply Permutation_in; [symmetry; apply pats_mid|]. apply in_or_app. left.
+      unfold pats in Hin. destruct c as [k rr ch]. cbn [nchildren rlist] in *. rewrite map_app. apply in_or_app. right. exact Hin.
+    + destruct IH as [Hps [others [Hperm [Hcl' Hap']]]]. split; [exact Hps|].
+      exists (map rpat (match nroute c with Some r => [r] | None => [] end) ++ others ++ pats (l1 ++ l2)).
+      split; [|split; [exact Hcl'|]].
+      * rewrite Ech, pats_mid. destruct c as [k rr ch]. cbn [nchildren nroute rlist] in *.
+        rewrite map_app. fold (pats ch). rewrite Hperm.
+        rewrite !app_assoc. apply Permutation_app_tail. rewrite <- !app_assoc.
+        rewrite Permutation_app_comm. rewrite <- app_assoc. apply Permutation_app_head. apply Permutation_app_comm.
+      * apply Forall_app. split; [|apply Forall_app; split; [exact Hap'|apply Forall_forall; exact Hap12]].
+        destruct (nroute c) as [r|] eqn:Er; [|constructor]. constructor; [|constructor].
+        destruct (WF_node_route _ _ _ Hwc Er) as [Ha Hb].
+        right. left. exists s. rewrite Ha. split; [exact Hs|]. split; [exact Hp'|]. apply (WF_node_closed _ _ Hwc).
+  - (* keyEndMidEdge: the new route becomes the parent of the rest of c *)
+    assert (Nat.eqb (List.length (c0 :: r0)) (List.length (nkey c)) = false) as E1 by (rewrite Hex; apply length_app_neq; exact Hs).
+    rewrite E1, Nat.eqb_refl, Hsk.
+    assert (p = pre ++ c0 :: r0) as Hp' by exact Hp.
+    unfold new_node. simpl sort_nodes.
+    apply Hwrap.
+    + assert (closed (pre ++ c0 :: r0) = true) as Hcl' by (rewrite <- Hp; exact p_closed).
+      constructor.
+      * discriminate.
+      * exact Hcl'.
+      * intros Hh Hs0.
+        assert (hostpart (pre ++ nkey c) = true) as Hk.
+        { apply (WF_node_host _ _ Hwc Hh). rewrite Hex. exact Hs0. }
+        rewrite Hex, app_assoc in Hk. apply hostpart_app in Hk. exact Hk.
+      * constructor; constructor.
+      * intros rt [= <-]. split; [exact Hp|rewrite <- Hp; exact p_path].
+      * discriminate.
+      * constructor; [|constructor]. apply WF_split_key; auto; discriminate.
+    + simpl. apply Ascii.eqb_refl.
+    + destruct c as [k rr ch]. simpl. rewrite app_nil_r. reflexivity.
+    + intros q Hq. apply in_map_iff in Hq. destruct Hq as [rt [<- Hq]].
+      destruct (WF_rlist_pat c pre rt Hwc Hq) as [k' [Hpat _]].
+      left. exists (s ++ k'). split; [|split; [|exact p_closed]].
+      * intros E. apply app_eq_nil in E. tauto.
+      * rewrite Hpat, Hex, Hp, <- !app_assoc. reflexivity.
+  - (* incompleteMatchToMiddleOfEdge *)
+    assert (Nat.eqb (List.length u) (List.length (nkey c)) = false) as E1 by (rewrite Hex2; apply length_app_neq_mid).
+    assert (Nat.eqb (List.length u) (List.length (c0 :: r0)) = false) as E2 by (rewrite Hex1; apply length_app_neq_mid).
+    rewrite E1, E2, Hsk1.
+    assert (p = (pre ++ u) ++ a :: s) as Hp' by (rewrite Hp, Hex1, app_assoc; reflexivity).
+    assert (snd (vrun (pre ++ u)) <> VBad) as Hnbu.
+    { eapply closed_app_nonbad. rewrite <- Hp'. exact p_closed. }
+    assert (cm + List.length u = List.length (pre ++ u)) as Hcm' by (rewrite app_length; lia).
+    assert (Nat.leb (cm + List.length u) (ri_hostsplit ri) = hostpart (pre ++ u)) as ->.
+    { rewrite Hcm'. symmetry. apply (hostpart_leb _ (a :: s)); [exact Hnbu|]. rewrite <- Hp'. apply Hvalid. }
+    destruct (prefix_conflict_spec pre u Hcl Hnbu) as [Hfalse Htrue].
+    assert (u <> []) as Hune.
+    { intros ->. simpl in Hex1, Hex2. apply starts_with_hd in Hst. destruct Hst as [r Hr].
+      rewrite Hr in Hex2. congruence. }
+    assert (forall rt, In rt (rlist c) -> exists k', rpat rt = (pre ++ u) ++ b :: (s' ++ k') /\ closed (rpat rt) = true) as Hqs.
+    { intros rt Hq. destruct (WF_rlist_pat c pre rt Hwc Hq) as [k' [Hpat [Hc' _]]].
+      exists k'. split; [|exact Hc']. rewrite Hpat, Hex2, <- !app_assoc. reflexivity. }
+    destruct (prefix_conflict (hostpart (pre ++ u)) u) eqn:Epc.
+    + (* conflict: every route below c clashes with p *)
+      unfold route_conflict. rewrite routes_of_node_rlist. split.
+      * intros E. apply map_eq_nil in E. eapply WF_rlist_nonempty; eauto.
+      * exists (pats (l1 ++ l2)). split; [rewrite Ech; apply pats_mid|]. split; [|apply Forall_forall; exact Hap12].
+        apply Forall_forall. intros q Hq. apply in_map_iff in Hq. destruct Hq as [rt [<- Hq]].
+        destruct (Hqs rt Hq) as [k' [Hpat Hc']].
+        exists (pre ++ u), a, s, b, (s' ++ k'). split; [exact Hp'|]. split; [exact Hpat|]. split; [exact Hab|].
+        assert (snd (vrun ((pre ++ u) ++ a :: s)) <> VBad) as Hnb1 by (rewrite <- Hp'; apply closed_nonbad, p_closed).
+        assert (snd (vrun ((pre ++ u) ++ b :: s' ++ k')) <> VBad) as Hnb2 by (rewrite <- Hpat; apply closed_nonbad, Hc').
+        destruct (diverge_states _ _ _ _ _ Hab Hnb1 Hnb2) as [Hd1 Hd2].
+        destruct (Htrue eq_refl) as [H|[H|H]]; [exact H|contradiction|contradiction].
+    + (* split c at the divergence *)
+      specialize (Hfalse eq_refl).
+      pose proof (new_leaf_spec ri (pre ++ u) a s Hvalid Hp' Hfalse) as Hnl. rewrite <- Hcm' in Hnl.
+      destruct (new_leaf ri (cm + List.length u) (a :: s)) as [n1 add]. cbn [fst] in Hnl.
+      destruct Hnl as [Hn1 [Hn2 Hn3]]. rewrite Hsk2.
+      set (n2 := Node (b :: s') (nroute c) (nchildren c)).
+      assert (WF_node (pre ++ u) n2) as Hw2 by (apply WF_split_key; auto; discriminate).
+      assert (fb n1 <> fb n2) as Hfb12.
+      { rewrite (fb_starts a n1 Hn3). unfold n2, fb. simpl. intros E. apply nat_of_ascii_inj in E. contradiction. }
+      destruct (sort_two n1 n2 (WF_node_key_ne _ _ Hn1) (WF_node_key_ne _ _ Hw2) Hfb12) as [Hs2 Hp2].
+      unfold new_node. apply Hwrap.
+      * constructor.
+        -- exact Hune.
+        -- exact Hfalse.
+        -- intros Hh Hs0. apply (hostpart_app _ (b :: s')). rewrite <- app_assoc, <- Hex2.
+           apply (WF_node_host _ _ Hwc Hh). rewrite Hex2. destruct u; [congruence|exact Hs0].
+        -- exact Hs2.
+        -- discriminate.
+        -- intros _. left. rewrite (Permutation_length Hp2). simpl. lia.
+        -- apply (perm_Forall _ [n1; n2]); [symmetry; exact Hp2|]. constructor; [exact Hn1|constructor; [exact Hw2|constructor]].
+      * destruct u as [|x u']; [congruence|]. simpl in Hex1. injection Hex1 as -> _. simpl. apply Ascii.eqb_refl.
+      * change (rlist (Node u None (sort_nodes [n1; n2]))) with (flat_map rlist (sort_nodes [n1; n2])).
+        rewrite (flat_map_rlist_perm _ _ Hp2). simpl. rewrite Hn2, app_nil_r.
+        destruct c as [k rr ch]. reflexivity.
+      * intros q Hq. apply in_map_iff in Hq. destruct Hq as [rt [<- Hq]].
+        destruct (Hqs rt Hq) as [k' [Hpat Hc']].
+        right. right. exists (pre ++ u), a, s, b, (s' ++ k'). auto.
+Qed.
+
+End Ins.
+
+(* ---------- update ---------- *)
+Lemma others_ne pre ch c0 r0 q : Forall (WF_node pre) ch ->
+  Forall (fun x => starts_with c0 (nkey x) = false) ch -> In q (pats ch) -> q <> pre ++ c0 :: r0.
+Proof.
+  intros Hwf Hno Hin. unfold pats in Hin. apply in_map_iff in Hin. destruct Hin as [rt [<- Hin]].
+  destruct (WF_children_pat ch pre rt Hwf Hin) as [c [k' [Hc1 [_ [Hne [Hp _]]]]]].
+  rewrite Forall_forall in Hno. specialize (Hno c Hc1).
+  destruct (nkey c) as [|b s'] eqn:Ek; [congruence|]. simpl in Hno. apply Ascii.eqb_neq in Hno.
+  rewrite Hp. intros E. apply app_inv_head in E. simpl in E. congruence.
+Qed.
+
+Lemma notin_mid p l1 c l2 : (forall q, In q (map rpat (rlist c)) -> q <> p) ->
+  (forall q, In q (pats (l1 ++ l2)) -> q <> p) -> ~ In p (pats (l1 ++ c :: l2)).
+Proof.
+  intros H1 H2 Hin. eapply Permutation_in in Hin; [|apply pats_mid]. apply in_app_or in Hin.
+  destruct Hin as [Hin|Hin]; [eapply H1|eapply H2]; eauto.
+Qed.
+
+Lemma app_ne_self {A} (l k : list A) : k <> [] -> l ++ k <> l.
+Proof. intros Hk E. rewrite <- (app_nil_r l) in E at 2. apply app_inv_head in E. contradiction. Qed.
+
+Lemma upd_spec r : forall fuel n pre rest,
+  WFch pre (nchildren n) -> rpat r = pre ++ rest -> rest <> [] -> List.length rest < fuel ->
+  match upd fuel r n rest with
+  | Some n' => nkey n' = nkey n /\ nroute n' = nroute n /\ WFch pre (nchildren n') /\
+               (List.length (nchildren n') = List.length (nchildren n) /\ map fb (nchildren n') = map fb (nchildren n)) /\
+               exists old l, rpat old = rpat r /\ Permutation (flat_map rlist (nchildren n)) (old :: l) /\
+                             Permutation (flat_map rlist (nchildren n')) (r :: l)
+  | None => ~ In (rpat r) (pats (nchildren n))
+  end.
+Proof.
+  induction fuel as [|f IH]; intros n pre rest Hch Hp Hne Hfuel; [lia|].
+  destruct rest as [|c0 r0]; [congruence|]. cbn [upd]. destruct Hch as [Hsorted Hwf].
+  destruct (find_child n c0) as [i|] eqn:Ef.
+  2:{ unfold find_child in Ef. apply find_child_from_none in Ef. intros Hin.
+      eapply others_ne in Hin; eauto. }
+  destruct (find_child_some n c0 i Ef) as [l1 [c [l2 [Ech [Ei [Hst [Hnth Hl1]]]]]]].
+  rewrite Hnth. rewrite Ech in Hsorted, Hwf.
+  assert (WF_node pre c) as Hwc.
+  { apply Forall_app in Hwf. destruct Hwf as [_ Hwf]. inversion Hwf; assumption. }
+  assert (Forall (fun x => starts_with c0 (nkey x) = false) (l1 ++ l2)) as Hothers
+    by (eapply sorted_mid_unique; eauto).
+  assert (Forall (WF_node pre) (l1 ++ l2)) as Hwf12.
+  { apply Forall_app in Hwf. destruct Hwf as [Ha Hb]. inversion Hb; subst. apply Forall_app; auto. }
+  assert (forall q, In q (pats (l1 ++ l2)) -> q <> rpat r) as Hne12.
+  { intros q Hq. rewrite Hp. eapply others_ne; eauto. }
+  assert (forall c' old, WF_node pre c' -> starts_with c0 (nkey c') = true -> rpat old = rpat r ->
+            (exists l, Permutation (rlist c) (old :: l) /\ Permutation (rlist c') (r :: l)) ->
+            nkey (Node (nkey n) (nroute n) (replace_nth (nchildren n) i c')) = nkey n /\
+            nroute (Node (nkey n) (nroute n) (replace_nth (nchildren n) i c')) = nroute n /\
+            WFch pre (nchildren (Node (nkey n) (nroute n) (replace_nth (nchildren n) i c'))) /\
+            (List.length (nchildren (Node (nkey n) (nroute n) (replace_nth (nchildren n) i c'))) = List.length (nchildren n) /\
+             map fb (nchildren (Node (nkey n) (nroute n) (replace_nth (nchildren n) i c'))) = map fb (nchildren n)) /\
+            exists old l, rpat old = rpat r /\ Permutation (flat_map rlist (nchildren n)) (old :: l) /\
+              Permutation (flat_map rlist (nchildren (Node (nkey n) (nroute n) (replace_nth (nchildren n) i c')))) (r :: l)) as Hwrap.
+  { intros c' old Hw' Hst' Hold [l [Hpa Hpb]]. cbn [nkey nroute nchildren]. rewrite Ech, Ei, replace_nth_app.
+    assert (fb c' = fb c) as Hfb by (rewrite (fb_starts c0 c'), (fb_starts c0 c); auto).
+    split; [reflexivity|]. split; [reflexivity|]. split; [|split].
+    - apply (WFch_replace pre l1 c l2 c'); auto. split; assumption.
+    - rewrite !app_length, !map_app. simpl. rewrite Hfb. auto.
+    - exists old, (l ++ flat_map rlist (l1 ++ l2)). split; [exact Hold|]. split.
+      + rewrite rlist_children_mid, Hpa. reflexivity.
+      + rewrite rlist_children_mid, Hpb. reflexivity. }
+  cbv zeta.
+  destruct (cp_cases (c0 :: r0) (nkey c)) as [Hex Hcp|s Hs Hex Hcp Hsk|s Hs Hex Hcp Hsk|u a s b s' Hab Hex1 Hex2 Hcp Hsk1 Hsk2];
+    rewrite Hcp.
+  - assert (Nat.eqb (List.length (nkey c)) (List.length (c0 :: r0)) = true) as E2 by (rewrite Hex; apply Nat.eqb_refl).
+    rewrite Nat.eqb_refl, E2.
+    assert (rpat r = pre ++ nkey c) as Hp' by (rewrite Hp, Hex; reflexivity).
+    destruct (nroute c) as [old|] eqn:Er.
+    + destruct (WF_node_route _ _ _ Hwc Er) as [Ha Hb].
+      apply (Hwrap _ old).
+      * apply WF_set_route; auto.
+      * exact Hst.
+      * congruence.
+      * exists (flat_map rlist (nchildren c)). destruct c as [k rr ch]. cbn [nroute nkey nchildren rlist] in *.
+        subst rr. split; reflexivity.
+    + rewrite Ech. apply notin_mid; [|exact Hne12].
+      intros q Hq. apply in_map_iff in Hq. destruct Hq as [rt [<- Hq]].
+      destruct c as [k rr ch]. cbn [nroute nkey nchildren] in *. subst rr. simpl in Hq.
+      destruct (WF_node_children _ _ Hwc) as [_ Hwcc]. cbn [nkey nchildren] in Hwcc.
+      destruct (WF_children_pat ch (pre ++ k) rt Hwcc Hq) as [c2 [k' [_ [_ [Hne2 [Hpat _]]]]]].
+      rewrite Hpat, Hp'. apply app_ne_self. intros E. apply app_eq_nil in E. tauto.
+  - assert (Nat.eqb (List.length (nkey c)) (List.length (c0 :: r0)) = false) as E2 by (rewrite Hex; apply length_app_neq; exact Hs).
+    rewrite Nat.eqb_refl, E2, Hsk.
+    assert (rpat r = (pre ++ nkey c) ++ s) as Hp' by (rewrite Hp, Hex, app_assoc; reflexivity).
+    assert (List.length s < f) as Hf'.
+    { rewrite Hex in Hfuel. rewrite app_length in Hfuel. pose proof (WF_node_key_ne _ _ Hwc) as Hk.
+      destruct (nkey c); [congruence|]. simpl in Hfuel. lia. }
+    specialize (IH c (pre ++ nkey c) s (WF_node_children _ _ Hwc) Hp' Hs Hf').
+    destruct (upd f r c s) as [c'|].
+    + destruct IH as [Hk [Hr [Hch' [Hg [old [l [Hold [Hpa Hpb]]]]]]]].
+      apply (Hwrap c' old).
+      * eapply WF_regrow; eauto. left. exact Hg.
+      * rewrite Hk. exact Hst.
+      * exact Hold.
+      * exists ((match nroute c with Some x => [x] | None => [] end) ++ l).
+        destruct c' as [k' r' ch'], c as [k rr ch]. cbn [nkey nroute nchildren rlist] in *. subst.
+        rewrite Hpa, Hpb. split; symmetry; apply Permutation_middle.
+    + rewrite Ech. apply notin_mid; [|exact Hne12].
+      intros q Hq. apply in_map_iff in Hq. destruct Hq as [rt [<- Hq]].
+      destruct c as [k rr ch]. cbn [nkey nroute nchildren rlist] in *. apply in_app_or in Hq.
+      destruct Hq as [Hq|Hq].
+      * destruct rr as [x|]; [|destruct Hq]. destruct Hq as [->|[]].
+        destruct (WF_node_route _ _ _ Hwc eq_refl) as [Ha Hb]. cbn [nkey] in Ha.
+        rewrite Ha, Hp'. intros E. symmetry in E. revert E. apply app_ne_self. exact Hs.
+      * intros E. apply IH. rewrite <- E. unfold pats. apply in_map. exact Hq.
+  - assert (Nat.eqb (List.length (c0 :: r0)) (List.length (nkey c)) = false) as E1 by (rewrite Hex; apply length_app_neq; exact Hs).
+    rewrite E1.
+    rewrite Ech. apply notin_mid; [|exact Hne12].
+    intros q Hq. apply in_map_iff in Hq. destruct Hq as [rt [<- Hq]].
+    destruct (WF_rlist_pat c pre rt Hwc Hq) as [k' [Hpat _]].
+    rewrite Hpat, Hex, Hp, <- !app_assoc. intros E. apply app_inv_head in E.
+    revert E. change (c0 :: r0 ++ s ++ k') with ((c0 :: r0) ++ s ++ k'). apply app_ne_self.
+    intros E. apply app_eq_nil in E. tauto.
+  - assert (Nat.eqb (List.length u) (List.length (nkey c)) = false) as E1 by (rewrite Hex2; apply length_app_neq_mid).
+    rewrite E1.
+    rewrite Ech. apply notin_mid; [|exact Hne12].
+    intros q Hq. apply in_map_iff in Hq. destruct Hq as [rt [<- Hq]].
+    destruct (WF_rlist_pat c pre rt Hwc Hq) as [k' [Hpat _]].
+    rewrite Hpat, Hex2, Hp, Hex1, <- !app_assoc. intros E. apply app_inv_head in E. apply app_inv_head in E.
+    simpl in E. congruence.
+Qed.
+
+(* ---------- remove ---------- *)
+Definition WFn (isroot : bool) (pre0 : bytes) (n : node) : Prop := if isroot then WF_root n else WF_node pre0 n.
+Definition cpre (isroot : bool) (pre0 : bytes) (n : node) : bytes := if isroot then [] else pre0 ++ nkey n.
+
+Lemma WFn_children isroot pre0 n : WFn isroot pre0 n -> WFch (cpre isroot pre0 n) (nchildren n).
+Proof.
+  destruct isroot; simpl.
+  - intros [_ [H1 H2]]. split; assumption.
+  - apply WF_node_children.
+Qed.
+
+Lemma WF_node_inner pre0 n : WF_node pre0 n -> nroute n = None ->
+  2 <= List.length (nchildren n) \/
+  (hostpart (pre0 ++ nkey n) = true /\ exists g, nchildren n = [g] /\ starts_with "/" (nkey g) = true).
+Proof. intros H. inversion H; subst. cbn [nkey nroute nchildren]. assumption. Qed.
+
+Definition inner_ok (pre : bytes) (ch : list node) : Prop :=
+  2 <= List.length ch \/ (hostpart pre = true /\ exists g, ch = [g] /\ starts_with "/" (nkey g) = true).
+
+Lemma WFn_with_children isroot pre0 n ch' :
+  WFn isroot pre0 n -> WFch (cpre isroot pre0 n) ch' ->
+  (isroot = false -> nroute n = None -> inner_ok (cpre isroot pre0 n) ch') ->
+  WFn isroot pre0 (Node (nkey n) (nroute n) ch').
+Proof.
+  destruct isroot; simpl; intros H [Hs Hf] Hin.
+  - destruct H as [H1 _]. split; [exact H1|]. split; assumption.
+  - inversion H; subst. cbn [nkey nroute nchildren] in *. constructor; auto.
+    intros E. apply Hin; auto.
+Qed.
+
+Lemma mid_singleton {A} (l1 : list A) c l2 g : l1 ++ c :: l2 = [g] -> l1 = [] /\ l2 = [] /\ c = g.
+Proof.
+  destruct l1 as [|x l1]; simpl; intros E.
+  - injection E as -> ->. auto.
+  - injection E as _ E. destruct l1; discriminate.
+Qed.
+
+Lemma WFn_replace_child isroot pre0 n l1 c l2 c' :
+  WFn isroot pre0 n -> nchildren n = l1 ++ c :: l2 -> WF_node (cpre isroot pre0 n) c' -> fb c' = fb c ->
+  WFn isroot pre0 (Node (nkey n) (nroute n) (l1 ++ c' :: l2)).
+Proof.
+  intros H Ech Hw Hfb. pose proof (WFn_children _ _ _ H) as Hch. rewrite Ech in Hch.
+  apply WFn_with_children; auto.
+  - eapply WFch_replace; eauto.
+  - intros -> Hr. simpl in *. destruct (WF_node_inner _ _ H Hr) as [Hl|[Hh [g [Eg Hg]]]].
+    + left. rewrite Ech in Hl. rewrite app_length in *. simpl in *. exact Hl.
+    + right. split; [exact Hh|]. rewrite Ech in Eg. apply mid_singleton in Eg. destruct Eg as [-> [-> ->]].
+      exists c'. split; [reflexivity|]. apply fb_eq_starts; [eapply WF_node_key_ne; eauto|].
+      rewrite Hfb. apply fb_starts. exact Hg.
+Qed.
+
+Lemma rlist_node_replace_perm n l1 c l2 c' r : nchildren n = l1 ++ c :: l2 ->
+  Permutation (rlist c) (r :: rlist c') ->
+  Permutation (rlist n) (r :: rlist (Node (nkey n) (nroute n) (l1 ++ c' :: l2))).
+Proof.
+  intros Ech Hp. destruct n as [k rr ch]. cbn [nkey nroute nchildren rlist] in *. subst ch.
+  rewrite !rlist_children_mid, Hp. simpl. rewrite <- Permutation_middle. reflexivity.
+Qed.
+
+Lemma WF_clear_route pre c : WF_node pre c -> 2 <= List.length (nchildren c) ->
+  WF_node pre (Node (nkey c) None (nchildren c)).
+Proof.
+  intros H Hl. inversion H; subst. cbn [nkey nchildren] in *. constructor; auto. discriminate.
+Qed.
+
+Lemma WF_merge pre n g : WF_node pre n -> WF_node (pre ++ nkey n) g ->
+  (hostpart (pre ++ nkey n) = true -> starts_with "/" (nkey g) = false) ->
+  WF_node pre (merge_child n g).
+Proof.
+  intros Hn Hg Hs. unfold merge_child.
+  pose proof (WF_node_key_ne _ _ Hn) as Hkn.
+  inversion Hg as [? k r ch H1 H2 H3 H4 H5 H6 H7]; subst. cbn [nkey nroute nchildren] in *.
+  rewrite <- app_assoc in *. constructor; auto.
+  - intros E. apply app_eq_nil in E. tauto.
+  - intros Hh Hsl.
+    assert (hostpart (pre ++ nkey n) = true) as Hh1.
+    { apply (WF_node_host _ _ Hn Hh). destruct (nkey n); [congruence|exact Hsl]. }
+    apply H3; auto.
+Qed.
+
+Lemma fb_app_l n k' k r ch : nkey n = k -> k <> [] -> fb (Node (k ++ k') r ch) = fb n.
+Proof. intros <- H. unfold fb. cbn [nkey]. destruct (nkey n); [congruence|reflexivity]. Qed.
+
+(* children lists: dropping the selected child *)
+Lemma WFch_remove pre l1 c l2 : WFch pre (l1 ++ c :: l2) -> WFch pre (l1 ++ l2).
+Proof.
+  intros [Hs Hf]. split; [eapply sorted_fb_remove; eauto|].
+  apply Forall_app in Hf. destruct Hf as [Ha Hb]. inversion Hb; subst. apply Forall_app; auto.
+Qed.
+
+Lemma WFch_sort pre ch : WFch pre ch -> WFch pre (sort_nodes ch).
+Proof.
+  intros [Hs Hf]. split.
+  - apply sort_nodes_sorted; [eapply WF_children_key_ne; eauto|apply sorted_fb_nodup; exact Hs].
+  - eapply perm_Forall; [symmetry; apply sort_nodes_perm|exact Hf].
+Qed.
+
+Lemma inner_ok_sort pre ch : Forall (fun c => nkey c <> []) ch -> inner_ok pre ch -> inner_ok pre (sort_nodes ch).
+Proof.
+  intros Hne [H|[Hh [g [-> Hg]]]].
+  - left. rewrite (Permutation_length (sort_nodes_perm ch)). exact H.
+  - right. split; [exact Hh|]. exists g. simpl. auto.
+Qed.
+
+(* rebuild, as used by rem: n loses child c; edges are the remaining children *)
+Lemma rebuild_new_node isroot pre0 n edges r :
+  WFn isroot pre0 n -> WFch (cpre isroot pre0 n) edges ->
+  (isroot = false -> nroute n = None -> inner_ok (cpre isroot pre0 n) edges) ->
+  Permutation (rlist n) (r :: (match nroute n with Some x => [x] | None => [] end) ++ flat_map rlist edges) ->
+  WFn isroot pre0 (new_node (nkey n) (nroute n) edges) /\
+  (if isroot then nkey (new_node (nkey n) (nroute n) edges) = nkey n
+   else fb (new_node (nkey n) (nroute n) edges) = fb n) /\
+  Permutation (rlist n) (r :: rlist (new_node (nkey n) (nroute n) edges)).
+Proof.
+  intros Hn Hch Hin Hperm. unfold new_node. split; [|split].
+  - apply WFn_with_children; [exact Hn|apply WFch_sort; exact Hch|].
+    intros E1 E2. apply inner_ok_sort; [|auto]. destruct Hch as [_ Hch]. eapply WF_children_key_ne; eauto.
+  - destruct isroot; reflexivity.
+  - cbn [rlist]. rewrite (flat_map_rlist_perm _ _ (sort_nodes_perm edges)). exact Hperm.
+Qed.
+
+Lemma rebuild_merge pre0 n g r :
+  WF_node pre0 n -> nroute n = None -> WF_node (pre0 ++ nkey n) g ->
+  (hostpart (pre0 ++ nkey n) = true -> starts_with "/" (nkey g) = false) ->
+  Permutation (rlist n) (r :: rlist g) ->
+  WF_node pre0 (merge_child n g) /\ fb (merge_child n g) = fb n /\
+  Permutation (rlist n) (r :: rlist (merge_child n g)).
+Proof.
+  intros Hn Er Hg Hs Hperm. split; [|split].
+  - apply WF_merge; auto.
+  - unfold merge_child. apply fb_app_l; [reflexivity|]. eapply WF_node_key_ne; eauto.
+  - rewrite Hperm. unfold merge_child. destruct g as [kg rg chg]. reflexivity.
+Qed.
+
+Lemma rebuild_spec isroot pre0 n edges (slash : bool) r :
+  WFn isroot pre0 n -> WFch (cpre isroot pre0 n) edges ->
+  (isroot = false -> nroute n = None -> edges <> []) ->
+  (isroot = false -> nroute n = None -> forall g, edges = [g] ->
+     if slash then hostpart (cpre isroot pre0 n) = true
+     else (hostpart (cpre isroot pre0 n) = true -> starts_with "/" (nkey g) = false)) ->
+  Permutation (rlist n) (r :: (match nroute n with Some x => [x] | None => [] end) ++ flat_map rlist edges) ->
+  WFn isroot pre0 (rebuild n isroot edges slash) /\
+  (if isroot then nkey (rebuild n isroot edges slash) = nkey n else fb (rebuild n isroot edges slash) = fb n) /\
+  Permutation (rlist n) (r :: rlist (rebuild n isroot edges slash)).
+Proof.
+  intros Hn Hch Hne Hone Hperm. unfold rebuild. destruct edges as [|g [|g' e]].
+  - apply rebuild_new_node; auto. intros E1 E2. exfalso. apply (Hne E1 E2). reflexivity.
+  - destruct (negb (is_leaf n) && negb isroot && negb (slash && starts_with "/" (nkey g))) eqn:E.
+    + apply andb_true_iff in E. destruct E as [E E3]. apply andb_true_iff in E. destruct E as [E1 E2].
+      destruct isroot; [discriminate|]. unfold is_leaf in E1. destruct (nroute n) eqn:Er; [discriminate|].
+      simpl in Hn, Hch, Hone. destruct Hch as [_ Hch]. inversion Hch as [|? ? Hwg _]; subst.
+      apply rebuild_merge; auto.
+      * intros Hh. specialize (Hone eq_refl eq_refl g eq_refl). destruct slash; [|exact (Hone Hh)].
+        simpl in E3. apply negb_true_iff in E3. exact E3.
+      * rewrite Hperm. simpl. rewrite app_nil_r. reflexivity.
+    + apply rebuild_new_node; auto. intros -> Er. unfold is_leaf in E. rewrite Er in E. simpl in E.
+      apply negb_false_iff in E. apply andb_true_iff in E. destruct E as [-> Eg].
+      right. split; [apply (Hone eq_refl Er g eq_refl)|]. exists g. auto.
+  - apply rebuild_new_node; auto. intros _ _. left. simpl. lia.
+Qed.
+
+Lemma rlist_node_mid n l1 c l2 : nchildren n = l1 ++ c :: l2 ->
+  Permutation (rlist n) (rlist c ++ (match nroute n with Some x => [x] | None => [] end) ++ flat_map rlist (l1 ++ l2)).
+Proof.
+  intros Ech. destruct n as [k rr ch]. cbn [nkey nroute nchildren rlist] in *. subst ch.
+  rewrite rlist_children_mid. rewrite !app_assoc. apply Permutation_app_tail. apply Permutation_app_comm.
+Qed.
+
+Lemma fb_same_key n r ch : fb (Node (nkey n) r ch) = fb n.
+Proof. reflexivity. Qed.
+
+Lemma rem_spec : forall fuel n isroot pre0 rest,
+  WFn isroot pre0 n -> rest <> [] -> List.length rest < fuel ->
+  match rem fuel n isroot rest with
+  | RemNotFound => ~ In (cpre isroot pre0 n ++ rest) (pats (nchildren n))
+  | RemReplace n' r =>
+      WFn isroot pre0 n' /\ (if isroot then nkey n' = nkey n else fb n' = fb n) /\
+      rpat r = cpre isroot pre0 n ++ rest /\ Permutation (rlist n) (r :: rlist n') /\
+      (isroot = true -> nchildren n' <> [])
+  | RemSplit r =>
+      isroot = false /\ nroute n = None /\ hostpart (cpre isroot pre0 n) = true /\
+      rpat r = cpre isroot pre0 n ++ rest /\ rlist n = [r]
+  | RemRoot n' r =>
+      isroot = true /\ WF_root n' /\ nkey n' = nkey n /\ rpat r = cpre isroot pre0 n ++ rest /\
+      Permutation (rlist n) (r :: rlist n')
+  end.
+Proof.
+  induction fuel as [|f IH]; intros n isroot pre0 rest Hn Hne Hfuel; [lia|].
+  destruct rest as [|c0 r0]; [congruence|]. cbn [rem].
+  pose proof (WFn_children _ _ _ Hn) as Hch. set (pre := cpre isroot pre0 n) in *.
+  destruct Hch as [Hsorted Hwf].
+  destruct (find_child n c0) as [i|] eqn:Ef.
+  2:{ unfold find_child in Ef. apply find_child_from_none in Ef. intros Hin.
+      eapply others_ne in Hin; eauto. }
+  destruct (find_child_some n c0 i Ef) as [l1 [c [l2 [Ech [Ei [Hst [Hnth Hl1]]]]]]].
+  rewrite Hnth. rewrite Ech in Hsorted, Hwf.
+  assert (WF_node pre c) as Hwc.
+  { apply Forall_app in Hwf. destruct Hwf as [_ Hwf]. inversion Hwf; assumption. }
+  assert (Forall (fun x => starts_with c0 (nkey x) = false) (l1 ++ l2)) as Hothers
+    by (eapply sorted_mid_unique; eauto).
+  assert (WFch pre (l1 ++ l2)) as Hch12 by (eapply WFch_remove; split; eauto).
+  assert (forall q, In q (pats (l1 ++ l2)) -> q <> pre ++ c0 :: r0) as Hne12.
+  { intros q Hq. destruct Hch12 as [_ Hf12]. eapply others_ne; eauto. }
+  assert (remove_nth (nchildren n) i = l1 ++ l2) as Erm by (rewrite Ech, Ei; apply remove_nth_app).
+  assert (forall c', replace_nth (nchildren n) i c' = l1 ++ c' :: l2) as Erp
+    by (intros c'; rewrite Ech, Ei; apply replace_nth_app).
+  (* result of a rebuild, wrapped by [out] *)
+  assert (forall (slash : bool) r, rpat r = pre ++ c0 :: r0 ->
+            (isroot = false -> nroute n = None -> l1 ++ l2 <> []) ->
+            (isroot = false -> nroute n = None -> forall g, l1 ++ l2 = [g] ->
+               if slash then hostpart pre = true else (hostpart pre = true -> starts_with "/" (nkey g) = false)) ->
+            rlist c = [r] ->
+            match (if isroot then RemRoot (rebuild n isroot (l1 ++ l2) slash) r
+                   else RemReplace (rebuild n isroot (l1 ++ l2) slash) r) with
+            | RemNotFound => ~ In (pre ++ c0 :: r0) (pats (nchildren n))
+            | RemReplace n' r0' =>
+                WFn isroot pre0 n' /\ (if isroot then nkey n' = nkey n else fb n' = fb n) /\
+                rpat r0' = pre ++ c0 :: r0 /\ Permutation (rlist n) (r0' :: rlist n') /\
+                (isroot = true -> nchildren n' <> [])
+            | RemSplit r0' =>
+                isroot = false /\ nroute n = None /\ hostpart pre = true /\
+                rpat r0' = pre ++ c0 :: r0 /\ rlist n = [r0']
+            | RemRoot n' r0' =>
+                isroot = true /\ WF_root n' /\ nkey n' = nkey n /\ rpat r0' = pre ++ c0 :: r0 /\
+                Permutation (rlist n) (r0' :: rlist n')
+            end) as Hout.
+  { intros slash r Hr Hne' Hone Hrc.
+    assert (Permutation (rlist n) (r :: (match nroute n with Some x => [x] | None => [] end) ++ flat_map rlist (l1 ++ l2))) as Hperm.
+    { rewrite (rlist_node_mid n l1 c l2 Ech), Hrc. reflexivity. }
+    destruct (rebuild_spec isroot pre0 n (l1 ++ l2) slash r Hn Hch12 Hne' Hone Hperm) as [Ha [Hb Hc]].
+    destruct isroot; simpl in *; auto. repeat split; auto. discriminate. }
+  cbv zeta. rewrite Erm.
+  destruct (cp_cases (c0 :: r0) (nkey c)) as [Hex Hcp|s Hs Hex Hcp Hsk|s Hs Hex Hcp Hsk|u a s b s' Hab Hex1 Hex2 Hcp Hsk1 Hsk2];
+    rewrite Hcp.
+  - (* the key of c is exactly the rest *)
+    assert (Nat.eqb (List.length (nkey c)) (List.length (c0 :: r0)) = true) as E2 by (rewrite Hex; apply Nat.eqb_refl).
+    rewrite Nat.eqb_refl, E2.
+    destruct (nroute c) as [r|] eqn:Er.
+    2:{ rewrite Ech. apply notin_mid; [|exact Hne12].
+        intros q Hq. apply in_map_iff in Hq. destruct Hq as [rt [<- Hq]].
+        destruct c as [k rr ch]. cbn [nroute nkey nchildren] in *. subst rr. simpl in Hq.
+        destruct (WF_node_children _ _ Hwc) as [_ Hwcc]. cbn [nkey nchildren] in Hwcc.
+        destruct (WF_children_pat ch (pre ++ k) rt Hwcc Hq) as [c2 [k' [_ [_ [Hne2 [Hpat _]]]]]].
+        rewrite Hpat, Hex. apply app_ne_self. intros E. apply app_eq_nil in E. tauto. }
+    destruct (WF_node_route _ _ _ Hwc Er) as [Ha Hb].
+    assert (rpat r = pre ++ c0 :: r0) as Hr by (rewrite Ha, Hex; reflexivity).
+    destruct (nchildren c) as [|g [|g' chc]] eqn:Ecc.
+    + (* a leaf without children disappears *)
+      assert (rlist c = [r]) as Hrc by (destruct c as [k rr ch]; cbn [nroute nchildren rlist] in *; subst; reflexivity).
+      assert (hostpart pre = true -> c0 = "/") as Hslash.
+      { intros Hh. destruct (starts_with "/" (nkey c)) eqn:Es.
+        - apply starts_with_hd in Es, Hst. destruct Es as [x Es], Hst as [y Hst]. congruence.
+        - rewrite (WF_node_host _ _ Hwc Hh Es) in Hb. discriminate. }
+      assert (isroot = false -> nroute n = None -> forall g, l1 ++ l2 = [g] ->
+              hostpart pre = true -> starts_with "/" (nkey g) = false) as Hone.
+      { intros _ _ g Eg Hh. rewrite Eg in Hothers. inversion Hothers; subst. rewrite <- (Hslash Hh). assumption. }
+      destruct (l1 ++ l2) as [|e es] eqn:Ee.
+      * destruct (negb (is_leaf n) && negb isroot) eqn:Ec.
+        -- apply andb_true_iff in Ec. destruct Ec as [Ec1 Ec2]. destruct isroot; [discriminate|].
+           unfold is_leaf in Ec1. destruct (nroute n) eqn:Ern; [discriminate|].
+           apply app_eq_nil in Ee. destruct Ee as [-> ->]. simpl in Ech.
+           split; [reflexivity|]. split; [reflexivity|]. split; [|split; [exact Hr|]].
+           ++ simpl in Hn. destruct (WF_node_inner _ _ Hn Ern) as [Hl|[Hh _]]; [rewrite Ech in Hl; simpl in Hl; lia|exact Hh].
+           ++ destruct n as [kn rn chn]. cbn [nroute nchildren rlist] in *. subst. simpl. rewrite Hrc. reflexivity.
+        -- apply (Hout false r Hr); auto; try (intros; discriminate).
+           intros -> Ern. unfold is_leaf in Ec. rewrite Ern in Ec. discriminate.
+      * apply (Hout false r Hr); auto; intros; discriminate.
+    + (* one child: merge it into c *)
+      rewrite Erp.
+      assert (WF_node (pre ++ nkey c) g) as Hwg.
+      { destruct (WF_node_children _ _ Hwc) as [_ Hf]. rewrite Ecc in Hf. inversion Hf; assumption. }
+      assert (WF_node pre (merge_child c g)) as Hwm.
+      { apply WF_merge; auto. intros Hh. rewrite Hh in Hb. discriminate. }
+      assert (fb (merge_child c g) = fb c) as Hfb.
+      { unfold merge_child. apply fb_app_l; [reflexivity|]. eapply WF_node_key_ne; eauto. }
+      split; [|split; [|split; [exact Hr|split]]].
+      * apply (WFn_replace_child isroot pre0 n l1 c l2); auto.
+      * destruct isroot; reflexivity.
+      * apply (rlist_node_replace_perm n l1 c l2); auto.
+        destruct c as [k rr ch], g as [kg rg chg]. cbn [nroute nchildren rlist merge_child] in *. subst. simpl.
+        rewrite app_nil_r. reflexivity.
+      * intros _. cbn [nchildren]. destruct l1; discriminate.
+    + (* several children: c stays as a branching node *)
+      rewrite Erp. rewrite <- Ecc.
+      assert (WF_node pre (Node (nkey c) None (nchildren c))) as Hwm.
+      { apply WF_clear_route; auto. rewrite Ecc. simpl. lia. }
+      split; [|split; [|split; [exact Hr|split]]].
+      * apply (WFn_replace_child isroot pre0 n l1 c l2); auto.
+      * destruct isroot; reflexivity.
+      * apply (rlist_node_replace_perm n l1 c l2); auto.
+        destruct c as [k rr ch]. cbn [nroute nchildren rlist] in *. subst. reflexivity.
+      * intros _. cbn [nchildren]. destruct l1; discriminate.
+  - (* descend *)
+    assert (Nat.eqb (List.length (nkey c)) (List.length (c0 :: r0)) = false) as E2 by (rewrite Hex; apply length_app_neq; exact Hs).
+    rewrite Nat.eqb_refl, E2, Hsk.
+    assert (pre ++ c0 :: r0 = (pre ++ nkey c) ++ s) as Hp' by (rewrite Hex, app_assoc; reflexivity).
+    assert (List.length s < f) as Hf'.
+    { rewrite Hex in Hfuel. rewrite app_length in Hfuel. pose proof (WF_node_key_ne _ _ Hwc) as Hk.
+      destruct (nkey c); [congruence|]. simpl in Hfuel. lia. }
+    specialize (IH c false pre s Hwc Hs Hf'). cbn [cpre] in IH.
+    destruct (rem f c false s) as [|c' r|r|c' r].
+    + rewrite Ech. apply notin_mid; [|exact Hne12].
+      intros q Hq. apply in_map_iff in Hq. destruct Hq as [rt [<- Hq]].
+      destruct c as [k rr ch]. cbn [nkey nroute nchildren rlist] in *. apply in_app_or in Hq.
+      destruct Hq as [Hq|Hq].
+      * destruct rr as [x|]; [|destruct Hq]. destruct Hq as [->|[]].
+        destruct (WF_node_route _ _ _ Hwc eq_refl) as [Ha Hb]. cbn [nkey] in Ha.
+        rewrite Ha, Hp'. intros E. symmetry in E. revert E. apply app_ne_self. exact Hs.
+      * intros E. apply IH. rewrite <- Hp', <- E. unfold pats. apply in_map. exact Hq.
+    + destruct IH as [Hw' [Hfb [Hr [Hperm _]]]]. simpl in Hw'. rewrite Erp.
+      split; [|split; [|split; [rewrite Hr; symmetry; exact Hp'|split]]].
+      * apply (WFn_replace_child isroot pre0 n l1 c l2); auto.
+      * destruct isroot; reflexivity.
+      * apply (rlist_node_replace_perm n l1 c l2); auto.
+      * intros _. cbn [nchildren]. destruct l1; discriminate.
+    + destruct IH as [_ [Erc [Hh [Hr Hrc]]]].
+      assert (hostpart pre = true) as Hhp by (eapply hostpart_app; eauto).
+      apply (Hout true r); auto.
+      * rewrite Hr. symmetry. exact Hp'.
+      * intros -> Ern E12. apply app_eq_nil in E12. destruct E12 as [-> ->]. simpl in Ech, Hn.
+        destruct (WF_node_inner _ _ Hn Ern) as [Hl|[_ [g [Eg Hg]]]]; [rewrite Ech in Hl; simpl in Hl; lia|].
+        rewrite Ech in Eg. injection Eg as <-.
+        apply hostpart_slash in Hh; [|apply closed_nonbad; eapply WF_node_closed; eauto].
+        apply Hh. apply in_or_app. right. apply starts_with_hd in Hg. destruct Hg as [x ->]. left. reflexivity.
+    + destruct IH as [E _]. discriminate.
+  - assert (Nat.eqb (List.length (c0 :: r0)) (List.length (nkey c)) = false) as E1 by (rewrite Hex; apply length_app_neq; exact Hs).
+    rewrite E1.
+    rewrite Ech. apply notin_mid; [|exact Hne12].
+    intros q Hq. apply in_map_iff in Hq. destruct Hq as [rt [<- Hq]].
+    destruct (WF_rlist_pat c pre rt Hwc Hq) as [k' [Hpat _]].
+    rewrite Hpat, Hex, <- !app_assoc. intros E. apply app_inv_head in E.
+    revert E. change (c0 :: r0 ++ s ++ k') with ((c0 :: r0) ++ s ++ k'). apply app_ne_self.
+    intros E. apply app_eq_nil in E. tauto.
+  - assert (Nat.eqb (List.length u) (List.length (nkey c)) = false) as E1 by (rewrite Hex2; apply length_app_neq_mid).
+    rewrite E1.
+    rewrite Ech. apply notin_mid; [|exact Hne12].
+    intros q Hq. apply in_map_iff in Hq. destruct Hq as [rt [<- Hq]].
+    destruct (WF_rlist_pat c pre rt Hwc Hq) as [k' [Hpat _]].
+    rewrite Hpat, Hex2, Hex1, <- !app_assoc. intros E. apply app_inv_head in E. apply app_inv_head in E.
+    simpl in E. congruence.
+Qed.
